@@ -1,6 +1,6 @@
 #!/usr/bin/env python3
 """Fast false-alarm sweep for ONE property: run its check on every behaviour-preserving patch of
-refactorings/ and refactorings2/ (or the dirs given) as an in-memory overlay of /repo HEAD.
+refactorings/, refactorings2/ and refactorings3/ (or the dirs given) as an in-memory overlay of /repo HEAD.
 
   tools/refcheck.py C13 [dir ...]      -> one line per patch that is not silent; exit 1 on any false alarm
 
@@ -11,6 +11,7 @@ sys.path.insert(0, VERIF)
 from sa.main import run_check
 
 def overlay_of(patch):
+    patch = os.path.abspath(patch)
     files = re.findall(r'^\+\+\+ b/(\S+)', open(patch).read(), re.M)
     tmp = tempfile.mkdtemp(prefix='verif-refcheck-')
     try:
@@ -28,7 +29,7 @@ def overlay_of(patch):
 
 def main():
     prop = sys.argv[1].upper()
-    dirs = sys.argv[2:] or sorted(glob.glob(os.path.join(VERIF, 'refactorings', '*')) + glob.glob(os.path.join(VERIF, 'refactorings2', '*')))
+    dirs = sys.argv[2:] or sorted(glob.glob(os.path.join(VERIF, 'refactorings', '*')) + glob.glob(os.path.join(VERIF, 'refactorings2', '*')) + glob.glob(os.path.join(VERIF, 'refactorings3', '*')))
     base = run_check(prop, '/repo', 'quick', 0)
     bk = {f.key() for f in base.findings()}
     rc = 0; n = fa = und = 0
